@@ -28,14 +28,23 @@ def _obs(record):
 
 def p_genret(case, record, expected_text):
     o = _obs(record)
-    return (o is not None and o["kind"] == 1 and _has(case, lambda n: n.get("t") == "genret")
-            and o["idle"][0] >= 3 and o["idle"][1] >= 2 and o["idle"][4] == 1)
+    # with a joined-error host function around it (C15-N2) the leaking call returns the GoError instead
+    kind_ok = o is not None and (o["kind"] == 1 or (o["kind"] in (0, 2) and _has(case, lambda n: n.get("k") == "gojoin")))
+    return (kind_ok and _has(case, lambda n: n.get("t") == "genret")
+            and o["idle"][0] >= 1 and o["idle"][1] >= 2 and o["idle"][4] == 1)
 
 
 def p_join(case, record, expected_text):
     o = _obs(record)
     return (o is not None and o["kind"] in (0, 2) and _has(case, lambda n: n.get("t") == "nat" and n.get("k") == "gojoin")
             and o["idle"][:3] == [0, 0, 0] and o["idle"][4] == 1)
+
+
+def p_join_iter(case, record, expected_text):
+    o = _obs(record)
+    return (o is not None and o["kind"] == 1 and _has(case, lambda n: n.get("t") == "nat" and n.get("k") == "gojoin")
+            and _has(case, lambda n: n.get("t") == "forof" and n.get("ret"))
+            and o["idle"][0] == 0 and o["idle"][1] == 0 and o["idle"][2] >= 1 and o["idle"][4] == 0)
 
 
 def async_stage(ctx):
@@ -126,6 +135,7 @@ CFG = {
     "predicates": {
         "C15.interrupt_in_finally_run_by_generator_return": p_genret,
         "C15.joined_interrupt_error_from_host_function": p_join,
+        "C15.iterator_close_interrupted_during_catchable_unwinding": p_join_iter,
     },
     "manifest": {
         "text": ("proof (partial): over a Gallina transcription of the run loop, handleThrow and the frame discipline of every "
